@@ -41,6 +41,8 @@ void CSRMatrix::add_append(CSRMatrix* B, CSRMatrix* C, bool remove_dup)
     int start, end;
 
     C->resize(n_rows, n_cols);
+    // C may have been created for a different number of rows
+    C->idx1.resize(n_rows + 1);
     int C_nnz = nnz + B->nnz;
     C->idx2.resize(C_nnz);
     C->vals.resize(C_nnz);
